@@ -89,7 +89,7 @@ m = {
     "setup_cmd": "bin/setup.sh",
     "hooks": {
         "guard": "verif",
-        "enable": "bin/build.sh: go build -tags verif -overlay <generated overlay.json>; the verif-tagged accessor/reset files live in /verif/engine/overlay and are injected through the overlay, /repo itself carries no hook code",
+        "enable": "bin/build.sh: go build -tags verif -overlay <generated overlay.json>; the verif-tagged accessor/reset files live in /verif/engine/overlay (both builds), overlay_controlled (rewritten build) and overlay_native (native and -race builds) and are injected through the overlay; function-entry hooks listed in engine/hooks.txt are inserted by the rewriter; /repo itself carries no hook code",
         "baseline_off_cmd": "cd /repo && go test -mod=mod -vet=off -count=1 ./...",
         "source_commits": [],
         "add_only": True,
